@@ -7,7 +7,7 @@ N=$(basename $D)
 WT=/tmp/refverify_${N}_$$; OUT=/tmp/refverify_out_${N}_$$
 rm -rf $OUT; mkdir -p $OUT
 git -C /repo worktree remove --force $WT 2>/dev/null
-git -C /repo worktree add -q $WT HEAD || exit 9
+git -C /repo worktree add -q $WT ${BASE:-HEAD} || exit 9
 git -C $WT apply $D/patch.diff || { echo "PATCH DOES NOT APPLY"; git -C /repo worktree remove --force $WT; exit 8; }
 cd /verif
 CHECKS="$@"
